@@ -110,6 +110,14 @@ pub mod m {
         a: i32,
     }
 
+    /// sorts before Imp1 but imports a name (`L1b`) that sorts after Imp1's (`L1`) from the same module
+    #[derive(TS)]
+    #[ts(export_to = "shared/m.ts")]
+    pub struct Imp0 {
+        l: L1b,
+        m: L2,
+    }
+
     #[derive(TS)]
     #[ts(export_to = "shared/m.ts")]
     pub struct Imp1 {
@@ -140,6 +148,7 @@ pub mod m {
         vec![
             ti!(Foo, "plain"),
             ti!(Foo2, "doc-lines"),
+            ti!(Imp0, "import"),
             ti!(Imp1, "import"),
             ti!(Imp2, "import"),
             ti!(Fo2, "plain", "suffix-of-generic-ident"),
@@ -347,6 +356,16 @@ pub mod g {
         r: Vec<RCyc1>,
         c: C,
     }
+    // a container bound to the type parameter of an inlined / flattened generic; type aliases
+    pub type BVec = Vec<B>;
+    pub type CMap = HashMap<String, Option<C>>;
+    root!(struct RGenInlineVec { #[ts(inline)] g: G<Vec<B>> });
+    root!(struct RGenFlattenOpt { #[ts(flatten)] g: G<Option<B>>, z: i32 });
+    root!(struct RGenInlineNestedGen { #[ts(inline)] g: G<G<Vec<C>>> });
+    root!(struct RAlias { v: BVec, m: CMap });
+    root!(struct RAliasAs { #[ts(as = "BVec")] x: i32, #[ts(as = "CMap")] y: i32 });
+    root!(struct RAliasInline { #[ts(inline)] v: BVec });
+    root!(enum EAlias { V(BVec), W { m: CMap } });
     // two dependencies that each have a dependency of their own (shared-file import unions)
     root!(struct RBoth { b: B, b2: B2, g: G<C> });
     // the same type used in two presentations inside one container
@@ -418,6 +437,13 @@ pub mod g {
             ti!(RPairGen, "generic-arg", "two-instantiations"),
             ti!(RSelf, "self-reference"),
             ti!(RCyc1, "cycle"),
+            ti!(RGenInlineVec, "generic-arg", "inline", "container-bound-to-parameter"),
+            ti!(RGenFlattenOpt, "generic-arg", "flatten", "container-bound-to-parameter"),
+            ti!(RGenInlineNestedGen, "generic-arg", "inline", "container-bound-to-parameter"),
+            ti!(RAlias, "alias"),
+            ti!(RAliasAs, "alias", "as"),
+            ti!(RAliasInline, "alias", "inline"),
+            ti!(EAlias, "alias", "enum"),
             ti!(RBoth, "field", "generic-arg"),
             ti!(RInlineAndName, "inline", "field", "same-type-twice"),
             ti!(RNameAndInline, "inline", "field", "same-type-twice"),
